@@ -123,8 +123,8 @@ func Makesync(logger *log.Logger, cliVersion string, fileName string, blockSizeK
 	errs := new(errgroup.Group)
 
 	for i := 0; i < runtime.GOMAXPROCS(0); i++ {
+		wg.Add(1)
 		errs.Go(func() error {
-			wg.Add(1)
 			hasher := xxhash.New()
 			for block := range tasks {
 				r := io.NewSectionReader(file, int64(header.TileDataOffset+block.Offset), int64(block.Length))
